@@ -101,6 +101,7 @@ type Enc struct {
 	carrs    map[string]string
 	lateFacts []string
 	absFloat bool
+	revealed map[string]bool
 	flits    []string
 }
 
@@ -565,6 +566,15 @@ func (s *State) get(name string) Term {
 	switch s.kind {
 	case sEntry:
 		t = e.constant(name+"@0", e.heapSortOf(name))
+		// the nil map (id 0) has no entries
+		if strings.HasPrefix(name, "Mhas_") && fv != nil && fv.entry == s {
+			srt := e.heapSortOf(name)
+			ks := strings.TrimSuffix(strings.TrimPrefix(srt, "(Array Int (Array "), " Bool))")
+			fv.addBg(fmt.Sprintf("(assert (forall ((k %s)) (! (not (select (select %s 0) k)) :pattern ((select (select %s 0) k)))))", ks, t, t), 0)
+		}
+		if strings.HasPrefix(name, "Mlen_") && fv != nil && fv.entry == s {
+			fv.addBg(fmt.Sprintf("(assert (= (select %s 0) 0))", t), 0)
+		}
 	case sCopy:
 		t = s.parent.get(name)
 	case sHavoc:
